@@ -605,7 +605,7 @@ pub fn oneshot_op(rec: &mut Rec, bs: &[u8], max: Option<usize>) -> Option<Result
 
 pub fn c04(rec: &mut Rec, rng: &mut Rng, thorough: bool) {
     // payload limit: rejected iff n > L, as soon as the header block is complete
-    let limits: Vec<usize> = vec![0, 1, 2, 3, 4, 5, 6, 7, 8, 1023, 1024, 1025, 51199, 51200, 51201, 4294967295];
+    let limits: Vec<usize> = vec![0, 1, 2, 3, 4, 5, 6, 7, 8, 1023, 1024, 1025, 51199, 51200, 51201, 4294967295, 4294967296, 4294967396];
     for &l in &limits {
         let mut ns: Vec<u64> = vec![0, 1, 4294967295];
         for d in [-1i64, 0, 1] {
@@ -616,6 +616,10 @@ pub fn c04(rec: &mut Rec, rng: &mut Rng, thorough: bool) {
         }
         // declared lengths that do not fit 32 bits: never accepted, and never reported as another number
         ns.extend_from_slice(&[4294967296, 4294967297, 99999999999]);
+        if l > 4294967295 {
+            // lengths around the limit's LOW 32 bits: all of them are within the limit
+            ns.extend_from_slice(&[5, 100, 101]);
+        }
         ns.sort();
         ns.dedup();
         for &n in &ns {
@@ -1310,7 +1314,9 @@ pub fn c13(rec: &mut Rec, rng: &mut Rng, thorough: bool) {
     let expect_vals = ["100-continue", "100-Continue", "103-checkpoint", " 100-continue ", "", "100-continue, x"];
     for _ in 0..n {
         rec.case("expect");
-        let limit = *rng.pick(&[0usize, 1, 5, 100, 51200]);
+        // (limits of 4 GiB and more are configurable on a 64-bit target: they must not be confused with their low 32 bits)
+        let limit = *rng.pick(&[0usize, 1, 5, 100, 51200, 4294967296, 4294967396]);
+        let big = limit > 4294967295;
         let mut d = ConnDriver::new(rec, limit);
         let k = rng.range(1, 4);
         let mut stream_all = vec![];
@@ -1328,8 +1334,9 @@ pub fn c13(rec: &mut Rec, rng: &mut Rng, thorough: bool) {
                 0 => None,
                 1 => Some(0),
                 2 => Some(1),
-                3 => Some(limit),
-                4 => Some(limit + 1),
+                3 if !big => Some(limit),
+                4 if !big => Some(limit + 1),
+                4 => Some(101),
                 _ => Some(rng.range(1, 40)),
             };
             let v11 = rng.chance(1, 2);
